@@ -169,6 +169,7 @@ impl Child {
         match self {
             Child::Ok => "ok".into(),
             Child::OkStartEnd => "okse".into(),
+            Child::Err { ty, tag, sev, extra } if *extra >= 16 => format!("e:{ty}/{tag}.x{extra}/{sev}"),
             Child::Err { ty, tag, sev, .. } => format!("e:{ty}/{tag}/{sev}"),
             Child::Data(_) => "data".into(),
             Child::Count(k) => format!("c{k}"),
@@ -216,6 +217,13 @@ impl Child {
                 if extra & 8 != 0 {
                     s.push_str("<error-path>/a/b</error-path>");
                 }
+                // a leaf given twice, the second time with the harmless value
+                if extra & 16 != 0 {
+                    s.push_str("<error-severity>warning</error-severity>");
+                }
+                if extra & 32 != 0 {
+                    s.push_str("<error-tag>operation-failed</error-tag><error-type>application</error-type>");
+                }
                 s.push_str("</rpc-error>");
                 s
             }
@@ -260,7 +268,7 @@ fn alphabet(rng: &mut Rng) -> Vec<Child> {
             "malformed-message",
         ]),
         sev,
-        extra: rng.below(16) as u8,
+        extra: if rng.chance(1, 6) { rng.below(64) as u8 } else { rng.below(16) as u8 },
     };
     vec![
         Child::Ok,
@@ -388,6 +396,20 @@ pub fn gen_docs(kind: &str, opts: &Opts, rng: &mut Rng) -> Vec<Vec<Child>> {
             }
         }
     }
+    // an rpc-error with a leaf given twice (severity error, then severity warning), before the
+    // positive indication: whichever a reader keeps, this is no success
+    {
+        for extra in [16u8, 32, 48, 16 | 2] {
+            let e = Child::Err { ty: "protocol", tag: "operation-failed", sev: "error", extra };
+            let d = match kind {
+                "load" => vec![Child::Results(vec![e.clone(), Child::Ok])],
+                "empty" => vec![e.clone(), Child::Ok],
+                "data" => vec![e.clone(), Child::Data("<configuration><a>1</a></configuration>")],
+                _ => vec![e.clone()],
+            };
+            docs.push(d);
+        }
+    }
     // elements that merely SOUND positive (Junos vocabulary of other replies, look-alikes, `ok` in a
     // foreign namespace), alone, after an error, after a warning, before the real indication
     {
@@ -460,11 +482,15 @@ fn parse_token(t: &str) -> Option<Child> {
                 return None;
             }
             let leak = |s: &str| -> &'static str { Box::leak(s.to_string().into_boxed_str()) };
+            let (tag, extra) = match f[1].split_once(".x") {
+                Some((t, x)) => (t, x.parse().unwrap_or(0)),
+                None => (f[1], 0),
+            };
             Child::Err {
                 ty: leak(f[0]),
-                tag: leak(f[1]),
+                tag: leak(tag),
                 sev: leak(f[2]),
-                extra: 0,
+                extra,
             }
         }
         _ if t.starts_with("W:") => {
